@@ -100,13 +100,13 @@ variable {κ ν : Type} [LT κ] [DecidableRel (α := κ) (· < ·)] [DecidableEq
 variable [DecidableEq ν]
 
 /-- **Fiber + fiber is the elementwise sum over the union of coordinates** (any depth, any
-    default): at every point the dense view of `a + b` is the sum of the operands' dense views
-    wherever either operand is non-default (the other side contributing its default), and the
-    default elsewhere. -/
-theorem fiber_add_spec [Add ν] (dflt : ν) : ∀ (d : Nat) (a b : Tree κ ν (d + 1)),
+    defaults `dfa` of `a` and `dfb` of `b`, equal or not): at every point the dense view of
+    `a + b` is the sum of the operands' dense views wherever either operand differs from its own
+    default (an absent side contributing ITS OWN default), and `a`'s default elsewhere. -/
+theorem fiber_add_spec [Add ν] (dfa dfb : ν) : ∀ (d : Nat) (a b : Tree κ ν (d + 1)),
     WF (d + 1) a → WF (d + 1) b → ∀ p : List κ,
-    denseAt dflt (d + 1) (addT dflt (d + 1) a b) p =
-      addExpect dflt (denseAt dflt (d + 1) a p) (denseAt dflt (d + 1) b p) := by
+    denseAt dfa (d + 1) (addT dfa dfb (d + 1) a b) p =
+      addExpect dfa dfb (denseAt dfa (d + 1) a p) (denseAt dfb (d + 1) b p) := by
   intro d
   induction d with
   | zero =>
@@ -116,25 +116,25 @@ theorem fiber_add_spec [Add ν] (dflt : ν) : ∀ (d : Nat) (a b : Tree κ ν (d
     | cons c q =>
       have hsa := ((WF_succ 0 a).1 ha).1
       have hsb := ((WF_succ 0 b).1 hb).1
-      rw [denseAt_cons, lookup_addT dflt 0 a b ha hb c,
-        ← denseAt_present dflt 0 a hsa c q, ← denseAt_present dflt 0 b hsb c q]
-      by_cases hcond : (lookup (present dflt 0 a) c).isSome = true ∨ (lookup (present dflt 0 b) c).isSome = true
+      rw [denseAt_cons, lookup_addT dfa dfb 0 a b ha hb c,
+        ← denseAt_present dfa 0 a hsa c q, ← denseAt_present dfb 0 b hsb c q]
+      by_cases hcond : (lookup (present dfa 0 a) c).isSome = true ∨ (lookup (present dfb 0 b) c).isSome = true
       · rw [if_pos hcond]
         apply addT_leaf
         rcases hcond with h | h
         · left
           obtain ⟨t, ht⟩ := Option.isSome_iff_exists.1 h
-          rw [ht]; exact ne_of_not_isEmpty_zero dflt t (not_isEmpty_of_lookup_present ht)
+          rw [ht]; exact ne_of_not_isEmpty_zero dfa t (not_isEmpty_of_lookup_present ht)
         · right
           obtain ⟨t, ht⟩ := Option.isSome_iff_exists.1 h
-          rw [ht]; exact ne_of_not_isEmpty_zero dflt t (not_isEmpty_of_lookup_present ht)
+          rw [ht]; exact ne_of_not_isEmpty_zero dfb t (not_isEmpty_of_lookup_present ht)
       · rw [if_neg hcond]
-        have h1 : lookup (present dflt 0 a) c = none := by
-          cases h : lookup (present dflt 0 a) c with
+        have h1 : lookup (present dfa 0 a) c = none := by
+          cases h : lookup (present dfa 0 a) c with
           | none => rfl
           | some _ => exact absurd (Or.inl (by simp [h])) hcond
-        have h2 : lookup (present dflt 0 b) c = none := by
-          cases h : lookup (present dflt 0 b) c with
+        have h2 : lookup (present dfb 0 b) c = none := by
+          cases h : lookup (present dfb 0 b) c with
           | none => rfl
           | some _ => exact absurd (Or.inr (by simp [h])) hcond
         simp [h1, h2, denseAt_dfltTree, addExpect]
@@ -145,19 +145,19 @@ theorem fiber_add_spec [Add ν] (dflt : ν) : ∀ (d : Nat) (a b : Tree κ ν (d
     | cons c q =>
       have hsa := ((WF_succ (d + 1) a).1 ha).1
       have hsb := ((WF_succ (d + 1) b).1 hb).1
-      rw [denseAt_cons, lookup_addT dflt (d + 1) a b ha hb c,
-        ← denseAt_present dflt (d + 1) a hsa c q, ← denseAt_present dflt (d + 1) b hsb c q]
-      by_cases hcond : (lookup (present dflt (d + 1) a) c).isSome = true ∨
-          (lookup (present dflt (d + 1) b) c).isSome = true
+      rw [denseAt_cons, lookup_addT dfa dfb (d + 1) a b ha hb c,
+        ← denseAt_present dfa (d + 1) a hsa c q, ← denseAt_present dfb (d + 1) b hsb c q]
+      by_cases hcond : (lookup (present dfa (d + 1) a) c).isSome = true ∨
+          (lookup (present dfb (d + 1) b) c).isSome = true
       · rw [if_pos hcond]
         exact ih _ _ (WF_getD_present ha c) (WF_getD_present hb c) q
       · rw [if_neg hcond]
-        have h1 : lookup (present dflt (d + 1) a) c = none := by
-          cases h : lookup (present dflt (d + 1) a) c with
+        have h1 : lookup (present dfa (d + 1) a) c = none := by
+          cases h : lookup (present dfa (d + 1) a) c with
           | none => rfl
           | some _ => exact absurd (Or.inl (by simp [h])) hcond
-        have h2 : lookup (present dflt (d + 1) b) c = none := by
-          cases h : lookup (present dflt (d + 1) b) c with
+        have h2 : lookup (present dfb (d + 1) b) c = none := by
+          cases h : lookup (present dfb (d + 1) b) c with
           | none => rfl
           | some _ => exact absurd (Or.inr (by simp [h])) hcond
         simp [h1, h2, denseAt_dfltTree, addExpect]
@@ -265,8 +265,8 @@ theorem fiber_iadd_dense [Add ν] (dflt : ν) : ∀ (d : Nat) (a b : Tree κ ν 
 theorem fiber_iadd_eq_add_partial [Add ν] (dflt : ν) (hr : ∀ x : ν, x + dflt = x)
     (d : Nat) (a b : Tree κ ν (d + 1)) (ha : WF (d + 1) a) (hb : WF (d + 1) b) (p : List κ) :
     denseAt dflt (d + 1) (iaddT dflt (d + 1) a b) p =
-      denseAt dflt (d + 1) (addT dflt (d + 1) a b) p := by
-  rw [fiber_iadd_dense dflt d a b ha hb p, fiber_add_spec dflt d a b ha hb p]
+      denseAt dflt (d + 1) (addT dflt dflt (d + 1) a b) p := by
+  rw [fiber_iadd_dense dflt d a b ha hb p, fiber_add_spec dflt dflt d a b ha hb p]
   simp only [iaddExpect, addExpect]
   by_cases hy : denseAt dflt (d + 1) b p = dflt
   · by_cases hx : denseAt dflt (d + 1) a p = dflt
@@ -503,9 +503,9 @@ variable [DecidableEq ν]
 /-- the executable pointwise check accepts the model's sum -/
 theorem fiber_add_specB_sound [Add ν] (dflt : ν) (d : Nat) (a b : Tree κ ν (d + 1))
     (ha : WF (d + 1) a) (hb : WF (d + 1) b) :
-    pointwiseB dflt (d + 1) (addExpect dflt) a b (addT dflt (d + 1) a b) = true := by
+    pointwiseB dflt (d + 1) (addExpect dflt dflt) a b (addT dflt dflt (d + 1) a b) = true := by
   unfold pointwiseB
-  exact List.all_eq_true.2 (fun p _ => decide_eq_true (fiber_add_spec dflt d a b ha hb p))
+  exact List.all_eq_true.2 (fun p _ => decide_eq_true (fiber_add_spec dflt dflt d a b ha hb p))
 
 /-- the executable pointwise check accepts the model's product -/
 theorem fiber_mul_specB_sound [Mul ν] (dflt : ν) (d : Nat) (a b : Tree κ ν (d + 1))
@@ -538,8 +538,8 @@ theorem today_fiber_iadd_vs_add [Add ν] (dflt : ν) (d : Nat) (a b : Tree κ ν
     (ha : WF (d + 1) a) (hb : WF (d + 1) b) (p : List κ)
     (hx : denseAt dflt (d + 1) a p ≠ dflt) (hy : denseAt dflt (d + 1) b p = dflt) :
     denseAt dflt (d + 1) (iaddT dflt (d + 1) a b) p = denseAt dflt (d + 1) a p ∧
-    denseAt dflt (d + 1) (addT dflt (d + 1) a b) p = denseAt dflt (d + 1) a p + dflt := by
-  rw [fiber_iadd_dense dflt d a b ha hb p, fiber_add_spec dflt d a b ha hb p, hy]
+    denseAt dflt (d + 1) (addT dflt dflt (d + 1) a b) p = denseAt dflt (d + 1) a p + dflt := by
+  rw [fiber_iadd_dense dflt d a b ha hb p, fiber_add_spec dflt dflt d a b ha hb p, hy]
   simp [iaddExpect, addExpect, hx]
 
 end
@@ -572,15 +572,17 @@ theorem exD_WF : WF 2 exD := by
   · exact (WF_succ 0 _).2 ⟨List.Pairwise.nil, fun _ h => by cases h⟩
   · exact (WF_succ 0 _).2 ⟨by unfold Sorted leafFiber; decide, fun _ _ => trivial⟩
 
-example : ∀ p, denseAt (0 : Int) 1 (addT 0 1 exA exB) p =
-    addExpect 0 (denseAt 0 1 exA p) (denseAt 0 1 exB p) := fiber_add_spec 0 0 exA exB exA_WF exB_WF
-example : ∀ p, denseAt (0 : Int) 2 (addT 0 2 exD exD) p =
-    addExpect 0 (denseAt 0 2 exD p) (denseAt 0 2 exD p) := fiber_add_spec 0 1 exD exD exD_WF exD_WF
+example : ∀ p, denseAt (0 : Int) 1 (addT 0 0 1 exA exB) p =
+    addExpect 0 0 (denseAt 0 1 exA p) (denseAt 0 1 exB p) := fiber_add_spec 0 0 0 exA exB exA_WF exB_WF
+example : ∀ p, denseAt (0 : Int) 2 (addT 0 0 2 exD exD) p =
+    addExpect 0 0 (denseAt 0 2 exD p) (denseAt 0 2 exD p) := fiber_add_spec 0 0 1 exD exD exD_WF exD_WF
+example : ∀ p, denseAt (7 : Int) 1 (addT 7 0 1 exA exB) p =
+    addExpect 7 0 (denseAt 7 1 exA p) (denseAt 0 1 exB p) := fiber_add_spec 7 0 0 exA exB exA_WF exB_WF
 example : ∀ p, denseAt (7 : Int) 1 (mulT 7 1 exA exB) p =
     mulExpect 7 (denseAt 7 1 exA p) (denseAt 7 1 exB p) := fiber_mul_spec 7 0 exA exB exA_WF exB_WF
 example : ∀ p, denseAt (0 : Int) 2 (iaddT 0 2 exD exD) p =
     iaddExpect 0 (denseAt 0 2 exD p) (denseAt 0 2 exD p) := fiber_iadd_dense 0 1 exD exD exD_WF exD_WF
-example : ∀ p, denseAt (0 : Int) 1 (iaddT 0 1 exA exB) p = denseAt 0 1 (addT 0 1 exA exB) p :=
+example : ∀ p, denseAt (0 : Int) 1 (iaddT 0 1 exA exB) p = denseAt 0 1 (addT 0 0 1 exA exB) p :=
   fiber_iadd_eq_add_partial 0 (by intro x; omega) 0 exA exB exA_WF exB_WF
 example : ∀ p, denseAt (0 : Int) 1 (imulT 0 0 exA exB) p = denseAt 0 1 (mulT 0 1 exA exB) p :=
   fiber_imul_eq_mul 0 0 exA exB exA_WF exB_WF
@@ -588,7 +590,7 @@ example : ∀ p, denseAt (0 : Int) 2 (imulT 0 1 exD exD) p = denseAt 0 2 (mulT 0
   fiber_imul_eq_mul 0 1 exD exD exD_WF exD_WF
 /-- default 7: `[(1,3)] += []` keeps 3 at coordinate 1, `[(1,3)] + []` gives 3 + 7 -/
 example : denseAt (7 : Int) 1 (iaddT 7 1 (leafFiber [((1 : Int), (3 : Int))]) (leafFiber [])) [1] = 3 ∧
-    denseAt (7 : Int) 1 (addT 7 1 (leafFiber [((1 : Int), (3 : Int))]) (leafFiber [])) [1] = 3 + 7 := by
+    denseAt (7 : Int) 1 (addT 7 7 1 (leafFiber [((1 : Int), (3 : Int))]) (leafFiber [])) [1] = 3 + 7 := by
   have hw : WF 1 (leafFiber [((1 : Int), (3 : Int))]) :=
     (WF_succ 0 _).2 ⟨by unfold Sorted leafFiber; decide, fun _ _ => trivial⟩
   have hn : WF 1 (leafFiber ([] : Fib Int Int)) :=
